@@ -588,4 +588,374 @@ theorem ReadsIn.cdataValue {cfg : Cfg} (hcfg : cfgOk cfg = true) {s : Str} (h : 
   rw [hs]
   simpa using this
 
+/-! ### number lexemes -/
+
+/-- a lexeme that is written raw, read back as is, and unchanged by `strip()` -/
+def NumLex (r : Str) : Prop := r ≠ [] ∧ ∀ c ∈ r, Plain c ∧ isPySpace c = false
+
+theorem NumLex.reads {r : Str} (h : NumLex r) : ReadsIn r r [] := ReadsIn.plain r (fun c hc => (h.2 c hc).1)
+
+theorem NumLex.strip {r : Str} (h : NumLex r) : stripWs r = r := stripWs_noSpace r (fun c hc => (h.2 c hc).2)
+
+theorem digit_facts {c : Char} (h : c.isDigit = true) : Plain c ∧ isPySpace c = false := by
+  have hb : 48 ≤ c.toNat ∧ c.toNat ≤ 57 := by
+    simp only [Char.isDigit, Bool.and_eq_true, decide_eq_true_eq] at h
+    have h1 : (48 : UInt32) ≤ c.val := h.1
+    have h2 : c.val ≤ (57 : UInt32) := h.2
+    constructor
+    · have := UInt32.le_iff_toNat_le.1 h1
+      have e : (48 : UInt32).toNat = 48 := by rfl
+      rw [e] at this; exact this
+    · have := UInt32.le_iff_toNat_le.1 h2
+      have e : (57 : UInt32).toNat = 57 := by rfl
+      rw [e] at this; exact this
+  refine ⟨⟨?_, ?_, ?_, ?_⟩, ?_⟩
+  · simp only [isXmlChar, Bool.or_eq_true, decide_eq_true_eq, Bool.and_eq_true]
+    right; refine ⟨⟨?_, ?_⟩, ?_⟩ <;> omega
+  · intro hc; subst hc; revert h; decide
+  · intro hc; subst hc; revert h; decide
+  · intro hc; subst hc; revert h; decide
+  · simp only [isPySpace, Bool.or_eq_false_iff, Bool.and_eq_false_iff, decide_eq_false_iff_not]
+    omega
+
+theorem numLex_natRepr (n : Nat) : NumLex (natRepr n) := by
+  have hrepr : natRepr n = Nat.toDigits 10 n := by
+    show (toString n).toList = _
+    exact Nat.toList_repr
+  rw [hrepr]
+  refine ⟨Nat.toDigits_ne_nil, ?_⟩
+  intro c hc
+  exact digit_facts (Nat.isDigit_of_mem_toDigits (by decide) (by decide) hc)
+
+theorem numLex_intRepr (i : Int) : NumLex (intRepr i) := by
+  cases i with
+  | ofNat n => exact numLex_natRepr n
+  | negSucc n =>
+    refine ⟨by simp [intRepr], ?_⟩
+    intro c hc
+    simp only [intRepr, List.mem_cons] at hc
+    rcases hc with rfl | hc
+    · exact ⟨by unfold Plain; decide, by decide⟩
+    · exact (numLex_natRepr (n + 1)).2 c hc
+
+theorem numLex_float {r : Str} (h : isFloatLexeme r = true) : NumLex r := by
+  simp only [isFloatLexeme, Bool.and_eq_true, Bool.not_eq_true', List.all_eq_true] at h
+  refine ⟨by intro h0; rw [h0] at h; simp at h, ?_⟩
+  intro c hc
+  have := h.2 c hc
+  simp only [Bool.or_eq_true, decide_eq_true_eq] at this
+  rcases this with (((((((h1 | h1) | h1) | h1) | h1) | h1) | h1) | h1) | h1
+  · have hd : c.isDigit = true := by
+      simp only [isAsciiDigit, Bool.and_eq_true, decide_eq_true_eq] at h1
+      simp only [Char.isDigit, Bool.and_eq_true, decide_eq_true_eq]
+      exact h1
+    exact digit_facts hd
+  all_goals (subst h1; exact ⟨by unfold Plain; decide, by decide⟩)
+
+theorem numLex_true : NumLex ['T', 'r', 'u', 'e'] := by
+  refine ⟨by simp, ?_⟩
+  intro c hc
+  simp only [List.mem_cons, List.not_mem_nil, or_false] at hc
+  rcases hc with rfl | rfl | rfl | rfl <;> exact ⟨by unfold Plain; decide, by decide⟩
+
+theorem numLex_false : NumLex ['F', 'a', 'l', 's', 'e'] := by
+  refine ⟨by simp, ?_⟩
+  intro c hc
+  simp only [List.mem_cons, List.not_mem_nil, or_false] at hc
+  rcases hc with rfl | rfl | rfl | rfl | rfl <;> exact ⟨by unfold Plain; decide, by decide⟩
+
+/-! ### `xmltodict` conventions on the elements read -/
+
+theorem valOf_leaf (k d : Str) :
+    valOf (Elem.mk k d []) = if (stripWs d).isEmpty then Val.none else Val.str (stripWs d) := by
+  simp [valOf, kidsOf]
+
+theorem kidsOf_cons (n d : Str) (ks es : List Elem) (acc : List (Str × Val)) :
+    kidsOf (Elem.mk n d ks :: es) acc = kidsOf es (pushData n (valOf (Elem.mk n d ks)) acc) := by
+  simp [kidsOf]
+
+theorem valOf_node (k d : Str) (ks : List Elem) (kvs : List (Str × Val)) (h : kidsOf ks [] = kvs) (hne : kvs ≠ [])
+    (hd : stripWs d = []) : valOf (Elem.mk k d ks) = Val.dict .n0 kvs := by
+  cases kvs with
+  | nil => exact absurd rfl hne
+  | cons p kvs => simp [valOf, h, hd]
+
+theorem pushData_fresh (k : Str) (v : Val) (acc : List (Str × Val)) (h : ∀ q ∈ acc, q.1 ≠ k) :
+    pushData k v acc = acc ++ [(k, v)] := by
+  induction acc with
+  | nil => rfl
+  | cons q acc ih =>
+    obtain ⟨k', v'⟩ := q
+    have hq : k' ≠ k := h (k', v') (by simp)
+    simp only [pushData, hq, if_false, List.cons_append]
+    rw [ih (fun q hq' => h q (by simp [hq']))]
+
+theorem valOf_num (k r : Str) (h : NumLex r) : valOf (Elem.mk k r []) = Val.str r := by
+  rw [valOf_leaf, h.strip]
+  have : r.isEmpty = false := by cases r with
+    | nil => exact absurd rfl h.1
+    | cons _ _ => rfl
+  simp [this]
+
+/-! ### what the writer emits for one entry, and for the entries of a dict -/
+
+/-- the text written for `(k, v)`: optional indent, then one element that reads as `normalise v` -/
+def EntryOut (cfg : Cfg) (k : Str) (v : Val) (indent : Nat) (body : Str) : Prop :=
+  ∃ bpre tl d ks, body = bpre ++ ('<' :: k ++ tl ++ ['>']) ∧ (bpre = [] ∨ bpre = spaces indent) ∧
+    ReadsElem ('<' :: k ++ tl ++ ['>']) (Elem.mk k d ks) ∧ valOf (Elem.mk k d ks) = normalise cfg v
+
+/-- the text written for the entries `kvs`: blanks, then elements separated by blanks, whose
+`xmltodict` reading appends `normKvs kvs` -/
+def EntriesOut (cfg : Cfg) (kvs : List (Str × Val)) (ne : Bool) (out : Str) : Prop :=
+  ∃ pre core w ks, out = pre ++ core ∧ (∀ c ∈ pre, c = ' ' ∨ (ne = true ∧ c = '\n')) ∧
+    (kvs = [] → out = []) ∧ (kvs ≠ [] → ∃ tl, core = '<' :: tl) ∧ Blank w ∧ ReadsIn core w ks ∧
+    (∀ acc, (∀ p ∈ kvs, ∀ q ∈ acc, q.1 ≠ p.1) → kidsOf ks acc = acc ++ normKvs cfg kvs)
+
+theorem openclose_shape (k inner : Str) :
+    openTag k [] ++ inner ++ closeTag k = '<' :: k ++ ('>' :: inner ++ '<' :: '/' :: k) ++ ['>'] := by
+  simp [openTag, closeTag]
+
+theorem empty_shape (k : Str) : emptyTag k [] = '<' :: k ++ ['/'] ++ ['>'] := by
+  simp [emptyTag]
+
+theorem EntryOut.leaf {cfg : Cfg} {k : Str} {v : Val} {indent : Nat} {txt r : Str} (hk : isName k = true)
+    (hr : ReadsIn txt r []) (hv : valOf (Elem.mk k r []) = normalise cfg v) :
+    EntryOut cfg k v indent (openTag k [] ++ txt ++ closeTag k) := by
+  refine ⟨[], '>' :: txt ++ '<' :: '/' :: k, r, [], ?_, Or.inl rfl, ?_, hv⟩
+  · rw [openclose_shape]; rfl
+  · rw [← openclose_shape]; exact ReadsElem.elem hk hr
+
+theorem EntryOut.emptyElem {cfg : Cfg} {k : Str} {v : Val} {indent : Nat} (hk : isName k = true)
+    (hv : normalise cfg v = Val.none) : EntryOut cfg k v indent (emptyTag k []) := by
+  refine ⟨[], ['/'], [], [], ?_, Or.inl rfl, ?_, ?_⟩
+  · rw [empty_shape]; rfl
+  · rw [← empty_shape]; exact ReadsElem.empty hk
+  · rw [hv, valOf_leaf]; rfl
+
+theorem EntryOut.num {cfg : Cfg} {k : Str} {v : Val} {indent : Nat} {r : Str} (hk : isName k = true)
+    (hr : NumLex r) (hv : normalise cfg v = Val.str r) :
+    EntryOut cfg k v indent (openTag k [] ++ r ++ closeTag k) :=
+  EntryOut.leaf hk hr.reads (by rw [valOf_num k r hr, hv])
+
+theorem EntryOut.str {cfg : Cfg} (hcfg : cfgOk cfg = true) {k : Str} {indent inc : Nat} {s : Str}
+    (hk : isName k = true) (hs : isXmlText s = true) :
+    EntryOut cfg k (Val.str s) indent (strElem cfg inc k indent s) := by
+  have htb : tableOk cfg.table = true := by
+    simp only [cfgOk, Bool.and_eq_true] at hcfg; exact hcfg.1.1
+  unfold strElem
+  by_cases hc : isCdataValue cfg s = true
+  · simp only [hc, if_true]
+    obtain ⟨a, b, ha, hb, hread⟩ := ReadsIn.cdataValue hcfg hc hs
+    have h1 : ReadsIn (['\n'] ++ spaces (indent + inc)) (['\n'] ++ spaces (indent + inc)) [] :=
+      ReadsIn.blank (blank_nl.append (blank_spaces _))
+    have h2 : ReadsIn (['\n'] ++ spaces indent) (['\n'] ++ spaces indent) [] :=
+      ReadsIn.blank (blank_nl.append (blank_spaces _))
+    have h := ReadsIn.append (ReadsIn.append h1 hread) h2
+    have hshape : ['\n'] ++ spaces (indent + inc) ++ s ++ ['\n'] ++ spaces indent
+        = (['\n'] ++ spaces (indent + inc) ++ s) ++ (['\n'] ++ spaces indent) := by simp [List.append_assoc]
+    rw [hshape]
+    refine EntryOut.leaf hk h ?_
+    have hsur : stripWs ((['\n'] ++ spaces (indent + inc)) ++ (a ++ cdataInner (stripWs s) ++ b) ++ (['\n'] ++ spaces indent))
+        = stripWs (cdataInner (stripWs s)) := by
+      have := stripWs_surround ((['\n'] ++ spaces (indent + inc)) ++ a) (cdataInner (stripWs s)) (b ++ (['\n'] ++ spaces indent))
+        ((blank_nl.append (blank_spaces _)).allSpace.append ha) (hb.append (blank_nl.append (blank_spaces _)).allSpace)
+      simpa [List.append_assoc] using this
+    rw [valOf_leaf, hsur]
+    simp [normalise, normText, hc]
+  · have hc' : isCdataValue cfg s = false := by simpa using hc
+    simp only [hc', Bool.false_eq_true, if_false]
+    refine EntryOut.leaf hk (ReadsIn.escape htb s hs) ?_
+    rw [valOf_leaf]
+    simp [normalise, normText, hc']
+
+theorem attribs_names {kvs : List (Str × Val)} (h : shapedKvs false kvs = true) : attribs kvs = .ok [] := by
+  induction kvs with
+  | nil => rfl
+  | cons p kvs ih =>
+    obtain ⟨k, v⟩ := p
+    simp only [shapedKvs, Bool.and_eq_true] at h
+    have hk : isAttrKey k = false := by
+      obtain ⟨c, cs, rfl, hc, _⟩ := isName_cons h.1.1
+      have : c ≠ '@' := by intro h'; subst h'; revert hc; decide
+      simp [isAttrKey, startsWith, this]
+    simp only [attribs, hk, Bool.false_eq_true, if_false]
+    exact ih h.2
+
+theorem normKvs_ne_nil {cfg : Cfg} {kvs : List (Str × Val)} (h : kvs ≠ []) : normKvs cfg kvs ≠ [] := by
+  cases kvs with
+  | nil => exact absurd rfl h
+  | cons p kvs => obtain ⟨k, v⟩ := p; simp [normKvs]
+
+theorem EntryOut.dict {cfg : Cfg} {k : Str} {c : Cls} {kvs : List (Str × Val)} {indent : Nat} {sub : Str}
+    (hk : isName k = true) (hsub : EntriesOut cfg kvs false sub) :
+    EntryOut cfg k (Val.dict c kvs) indent (dictElem cfg k indent sub []) := by
+  obtain ⟨pre, core, w, ks, hout, hpre, hnil, hcons, hw, hread, hkids⟩ := hsub
+  by_cases hkv : kvs = []
+  · have hs0 : sub = [] := hnil hkv
+    subst hkv
+    rw [hs0]
+    simp only [dictElem, List.isEmpty_nil, Bool.not_true, Bool.false_eq_true, if_false]
+    exact EntryOut.emptyElem hk (by simp [normalise])
+  · obtain ⟨tl, hcore⟩ := hcons hkv
+    have hpre' : ∀ c ∈ pre, c = ' ' := by
+      intro c hc
+      rcases hpre c hc with h | h
+      · exact h
+      · exact absurd h.1 (by simp)
+    have hpreB : Blank pre := fun c hc => Or.inl (hpre' c hc)
+    have hsubne : sub.isEmpty = false := by
+      rw [hout, hcore]; cases pre <;> simp
+    have hk0 : kidsOf ks [] = normKvs cfg kvs := by
+      have := hkids [] (by intro p _ q hq; simp at hq)
+      simpa using this
+    have hnorm : normalise cfg (Val.dict c kvs) = Val.dict .n0 (normKvs cfg kvs) := by
+      have : kvs.isEmpty = false := by cases kvs <;> simp_all
+      simp [normalise, this]
+    simp only [dictElem, hsubne, Bool.not_false, if_true]
+    by_cases hnl : sub.contains '\n' = true
+    · simp only [hnl, if_true]
+      -- multi-line layout
+      have hin : ReadsIn (['\n'] ++ sub ++ ['\n'] ++ spaces indent) (['\n'] ++ (pre ++ w) ++ (['\n'] ++ spaces indent)) ks := by
+        have h1 : ReadsIn sub (pre ++ w) ks := by
+          rw [hout]
+          have := ReadsIn.append (ReadsIn.blank hpreB) hread
+          simpa using this
+        have h2 := ReadsIn.append (ReadsIn.append (ReadsIn.blank blank_nl) h1) (ReadsIn.blank (blank_nl.append (blank_spaces indent)))
+        simpa [List.append_assoc] using h2
+      have hblank : Blank (['\n'] ++ (pre ++ w) ++ (['\n'] ++ spaces indent)) :=
+        (blank_nl.append (hpreB.append hw)).append (blank_nl.append (blank_spaces indent))
+      refine ⟨[], '>' :: (['\n'] ++ sub ++ ['\n'] ++ spaces indent) ++ '<' :: '/' :: k,
+        ['\n'] ++ (pre ++ w) ++ (['\n'] ++ spaces indent), ks, ?_, Or.inl rfl, ?_, ?_⟩
+      · simp [openTag, closeTag, List.append_assoc]
+      · rw [← openclose_shape]; exact ReadsElem.elem hk hin
+      · rw [hnorm]
+        exact valOf_node _ _ _ _ hk0 (normKvs_ne_nil hkv) (stripWs_allSpace hblank.allSpace)
+    · simp only [hnl, if_false]
+      have hdrop : sub.dropWhile isPySpace = core := by
+        rw [hout, dropWhile_all _ pre core (fun c hc => by rw [hpre' c hc]; decide), hcore]
+        simp [List.dropWhile_cons, show isPySpace '<' = false by decide]
+      rw [hdrop]
+      refine ⟨if cfg.parm.contains k then spaces indent else [], '>' :: core ++ '<' :: '/' :: k, w, ks, ?_, ?_, ?_, ?_⟩
+      · simp [openTag, closeTag, List.append_assoc]
+      · split
+        · exact Or.inr rfl
+        · exact Or.inl rfl
+      · rw [← openclose_shape]; exact ReadsElem.elem hk hread
+      · rw [hnorm]
+        exact valOf_node _ _ _ _ hk0 (normKvs_ne_nil hkv) (stripWs_allSpace hw.allSpace)
+
+theorem EntriesOut.nil (cfg : Cfg) (ne : Bool) : EntriesOut cfg [] ne [] :=
+  ⟨[], [], [], [], rfl, by intro c hc; simp at hc, fun _ => rfl, fun h => absurd rfl h, blank_nil, ReadsIn.nil,
+    by intro acc _; simp [kidsOf, normKvs]⟩
+
+theorem entryPrefix_chars (cfg : Cfg) (k : Str) (indent : Nat) (ne : Bool) :
+    ∀ c ∈ entryPrefix cfg k indent ne, c = ' ' ∨ (ne = true ∧ c = '\n') := by
+  intro c hc
+  unfold entryPrefix at hc
+  split at hc
+  · rcases List.mem_append.1 hc with h | h
+    · cases ne with
+      | true => simp at h; exact Or.inr ⟨rfl, h⟩
+      | false => simp at h
+    · exact Or.inl (List.mem_replicate.1 h).2
+  · simp at hc
+
+theorem EntriesOut.cons {cfg : Cfg} {k : Str} {v : Val} {rest : List (Str × Val)} {indent : Nat} {ne : Bool}
+    {body r : Str} (hb : EntryOut cfg k v indent body) (hr : EntriesOut cfg rest true r)
+    (hfresh : ∀ p ∈ rest, p.1 ≠ k) :
+    EntriesOut cfg ((k, v) :: rest) ne (entryPrefix cfg k indent ne ++ body ++ r) := by
+  obtain ⟨bpre, tl, d, ks, hbody, hbpre, hre, hval⟩ := hb
+  obtain ⟨pre2, core2, w2, ks2, hout2, hpre2, _, _, hw2, hread2, hkids2⟩ := hr
+  have hpre2B : Blank pre2 := by
+    intro c hc
+    rcases hpre2 c hc with h | h
+    · exact Or.inl h
+    · exact Or.inr h.2
+  refine ⟨entryPrefix cfg k indent ne ++ bpre, ('<' :: k ++ tl ++ ['>']) ++ (pre2 ++ core2), pre2 ++ w2,
+    Elem.mk k d ks :: ks2, ?_, ?_, ?_, ?_, hpre2B.append hw2, ?_, ?_⟩
+  · rw [hbody, hout2]; simp [List.append_assoc]
+  · intro c hc
+    rcases List.mem_append.1 hc with h | h
+    · exact entryPrefix_chars cfg k indent ne c h
+    · rcases hbpre with h0 | h0
+      · rw [h0] at h; simp at h
+      · rw [h0] at h; exact Or.inl (List.mem_replicate.1 h).2
+  · intro h; simp at h
+  · intro _; exact ⟨k ++ tl ++ ['>'] ++ (pre2 ++ core2), by simp [List.append_assoc]⟩
+  · have h1 := ReadsIn.append hre.readsIn (ReadsIn.append (ReadsIn.blank hpre2B) hread2)
+    simpa using h1
+  · intro acc hacc
+    rw [kidsOf_cons, hval]
+    rw [pushData_fresh k _ acc (fun q hq => hacc (k, v) (by simp) q hq)]
+    rw [hkids2 (acc ++ [(k, normalise cfg v)])]
+    · simp [normKvs, List.append_assoc]
+    · intro p hp q hq
+      rcases List.mem_append.1 hq with h | h
+      · exact hacc p (by simp [hp]) q h
+      · have : q = (k, normalise cfg v) := by simpa using h
+        rw [this]
+        exact fun h' => hfresh p hp h'.symm
+
+theorem keysNodup_cons {k : Str} {v : Val} {rest : List (Str × Val)} (h : keysNodup ((k, v) :: rest) = true) :
+    (∀ p ∈ rest, p.1 ≠ k) ∧ keysNodup rest = true := by
+  simp only [keysNodup, Bool.and_eq_true, Bool.not_eq_true', List.any_eq_false, decide_eq_true_eq] at h
+  exact ⟨fun p hp => h.1 p hp, h.2⟩
+
+mutual
+/-- the writer on one entry of a list-free XML-shaped dict -/
+theorem entry_out (cfg : Cfg) (hcfg : cfgOk cfg = true) (inc : Nat) :
+    ∀ (v : Val) (k : Str) (indent : Nat), isName k = true → shapedVal false v = true →
+      ∃ body, xmlEntry cfg inc k v indent = .ok body ∧ EntryOut cfg k v indent body
+  | .none, k, indent, hk, _ => ⟨emptyTag k [], by simp [xmlEntry], EntryOut.emptyElem hk (by simp [normalise])⟩
+  | .int i, k, indent, hk, _ => by
+      have ha : isAttrKey k = false := by
+        obtain ⟨c, cs, rfl, hc, _⟩ := isName_cons hk
+        have : c ≠ '@' := by intro h'; subst h'; revert hc; decide
+        simp [isAttrKey, startsWith, this]
+      exact ⟨openTag k [] ++ intRepr i ++ closeTag k, by simp [xmlEntry, ha], EntryOut.num hk (numLex_intRepr i) (by simp [normalise])⟩
+  | .flt r, k, indent, hk, hv => by
+      have ha : isAttrKey k = false := by
+        obtain ⟨c, cs, rfl, hc, _⟩ := isName_cons hk
+        have : c ≠ '@' := by intro h'; subst h'; revert hc; decide
+        simp [isAttrKey, startsWith, this]
+      exact ⟨openTag k [] ++ r ++ closeTag k, by simp [xmlEntry, ha], EntryOut.num hk (numLex_float (by simpa [shapedVal] using hv)) (by simp [normalise])⟩
+  | .bool b, k, indent, hk, _ => by
+      have ha : isAttrKey k = false := by
+        obtain ⟨c, cs, rfl, hc, _⟩ := isName_cons hk
+        have : c ≠ '@' := by intro h'; subst h'; revert hc; decide
+        simp [isAttrKey, startsWith, this]
+      cases b with
+      | true => exact ⟨openTag k [] ++ ['T', 'r', 'u', 'e'] ++ closeTag k, by simp [xmlEntry, ha], EntryOut.num hk numLex_true (by simp [normalise])⟩
+      | false => exact ⟨openTag k [] ++ ['F', 'a', 'l', 's', 'e'] ++ closeTag k, by simp [xmlEntry, ha], EntryOut.num hk numLex_false (by simp [normalise])⟩
+  | .str s, k, indent, hk, hv => by
+      have ha : isAttrKey k = false := by
+        obtain ⟨c, cs, rfl, hc, _⟩ := isName_cons hk
+        have : c ≠ '@' := by intro h'; subst h'; revert hc; decide
+        simp [isAttrKey, startsWith, this]
+      exact ⟨strElem cfg inc k indent s, by simp [xmlEntry, ha], EntryOut.str (inc := inc) hcfg hk (by simpa [shapedVal] using hv)⟩
+  | .dict c kvs, k, indent, hk, hv => by
+      have hv' : keysNodup kvs = true ∧ shapedKvs false kvs = true := by simpa [shapedVal] using hv
+      obtain ⟨sub, hsub, hout⟩ := entries_out cfg hcfg inc kvs (indent + inc) false hv'.1 hv'.2
+      refine ⟨dictElem cfg k indent sub [], ?_, EntryOut.dict hk hout⟩
+      simp [xmlEntry, hsub, attribs_names hv'.2, bind, Except.bind]
+  | .list c xs, k, indent, hk, hv => by simp [shapedVal] at hv
+/-- the writer on the entries of a list-free XML-shaped dict -/
+theorem entries_out (cfg : Cfg) (hcfg : cfgOk cfg = true) (inc : Nat) :
+    ∀ (kvs : List (Str × Val)) (indent : Nat) (ne : Bool), keysNodup kvs = true → shapedKvs false kvs = true →
+      ∃ out, xmlEntries cfg inc kvs indent ne = .ok out ∧ EntriesOut cfg kvs ne out
+  | [], indent, ne, _, _ => ⟨[], by simp [xmlEntries], EntriesOut.nil cfg ne⟩
+  | (k, v) :: rest, indent, ne, hn, hs => by
+      have hs' : (isName k = true ∧ shapedVal false v = true) ∧ shapedKvs false rest = true := by
+        simpa [shapedKvs] using hs
+      obtain ⟨hfresh, hn'⟩ := keysNodup_cons hn
+      obtain ⟨body, hbody, hbo⟩ := entry_out cfg hcfg inc v k indent hs'.1.1 hs'.1.2
+      obtain ⟨r, hr, hro⟩ := entries_out cfg hcfg inc rest indent true hn' hs'.2
+      refine ⟨entryPrefix cfg k indent ne ++ body ++ r, ?_, EntriesOut.cons hbo hro hfresh⟩
+      have hne : (entryPrefix cfg k indent ne ++ body).isEmpty = false := by
+        obtain ⟨bpre, tl, d, ks, hb, _⟩ := hbo
+        rw [hb]
+        cases h1 : entryPrefix cfg k indent ne <;> cases bpre <;> simp
+      simp [xmlEntries, hbody, hne, hr, bind, Except.bind]
+end
+
 end N0.Xml
